@@ -253,7 +253,14 @@ func (sim *BmQSimulator) BmMatrixFromOperation(op []*bmline.BasmLine) (*bmmatrix
 				for i, arg := range op[fundLine].Elements {
 					argName := arg.GetValue()
 					if _, ok := sim.qbitsNum[argName]; ok {
-						localOrder[i] = sim.qbitsNum[argName]
+						// The position of the qbit is the current one: previous swaps (of other
+						// operations of the same matrix) may have moved it from its declared place
+						for pos, name := range localQBits {
+							if name == argName {
+								localOrder[i] = pos
+								break
+							}
+						}
 					} else {
 						// Leaving out the arguments that are not qbits
 						localOrder[i] = -1
